@@ -2,6 +2,9 @@
 // PrecomputedMatrix, BlockMatrix2x2, DifferenceKernelMatrix, PartlyPrecomputedMatrix
 // over integer points and a LinearKernel (all values exact).  Line protocol of
 // lean/Driver/C09.lean (ops starting with 'w').
+#include <shark/Models/Kernels/LinearKernel.h>
+#include <shark/Models/Kernels/EvalSkipMissingFeatures.h>
+#include <shark/LinAlg/ExampleModifiedKernelMatrix.h>
 #include <shark/LinAlg/KernelMatrix.h>
 #include <shark/LinAlg/RegularizedKernelMatrix.h>
 #include <shark/LinAlg/ModifiedKernelMatrix.h>
@@ -15,7 +18,9 @@
 #include <shark/Models/Kernels/LinearKernel.h>
 #include <shark/Data/Dataset.h>
 #include "common.hpp"
+#include "c09_state.hpp"
 #include <memory>
+#include <cstring>
 using namespace shark;
 
 template<class T>
@@ -26,6 +31,23 @@ struct AnyMatrix{
 	virtual void row(std::size_t k, std::size_t s, std::size_t e, T* st) const = 0;
 	virtual void flip(std::size_t i, std::size_t j) = 0;
 	virtual bool matrix(blas::matrix<T>& m) const{ return false; }
+};
+// the base-matrix interface CachedMatrix<Matrix> needs, forwarding to the wrapper under test
+template<class T>
+struct Dyn{
+	typedef T QpFloatType;
+	AnyMatrix<T>* m;
+	explicit Dyn(AnyMatrix<T>* m): m(m){}
+	std::size_t size() const{ return m->size(); }
+	T entry(std::size_t i, std::size_t j) const{ return m->entry(i,j); }
+	T operator()(std::size_t i, std::size_t j) const{ return m->entry(i,j); }
+	void row(std::size_t k, std::size_t s, std::size_t e, T* st) const{ m->row(k,s,e,st); }
+	void flipColumnsAndRows(std::size_t i, std::size_t j){ m->flip(i,j); }
+};
+template<class T>
+struct ProbeW: public CachedMatrix<Dyn<T> >{
+	ProbeW(Dyn<T>* b, std::size_t cap): CachedMatrix<Dyn<T> >(b, cap){}
+	LRUCache<T>& cache(){ return this->m_cache; }
 };
 template<class T, class M> bool callMatrix(M const& m, blas::matrix<T>& out, std::size_t n, std::true_type){ out.resize(n,n); m.matrix(out); return true; }
 template<class T, class M> bool callMatrix(M const&, blas::matrix<T>&, std::size_t, std::false_type){ return false; }
@@ -66,6 +88,17 @@ int run(){
 	// under a permutation the harness tracks itself
 	std::vector<std::size_t> perm; std::string wty; double modE = 0, modN = 0;
 	std::vector<std::pair<std::size_t,std::size_t> > opairs;
+	std::vector<double> oscale;                    // exmod: 1/s_i per ORIGINAL example
+	std::map<std::uint64_t, long> gdecode;         // gauss: bit pattern of T(exp(-gamma d)) -> d
+	std::unique_ptr<Dyn<T> > dyn; std::unique_ptr<ProbeW<T> > cm; c09::BufferIds<T> ids; c09::RecentRows<T> rr;
+	auto bits = [](T v){ std::uint64_t b = 0; std::memcpy(&b, &v, sizeof(T)); return b; };
+	// observation of a value: exact integer, or (gauss) the squared distance it encodes
+	auto obs = [&](T v) -> std::string {
+		if(wty != "gauss") return vh::intval(v);
+		typename std::map<std::uint64_t, long>::const_iterator it = gdecode.find(bits(v));
+		return it == gdecode.end() ? std::string("?") + vh::exactDouble(double(v)) : std::to_string(it->second);
+	};
+	auto sqdist = [&](std::size_t p, std::size_t q){ double s = 0; for(std::size_t c = 0; c != pts[p].size(); ++c){ double d = pts[p](c) - pts[q](c); s += d*d; } return s; };
 	auto K = [&](std::size_t p, std::size_t q){ double s = 0; for(std::size_t c = 0; c != pts[p].size(); ++c) s += pts[p](c)*pts[q](c); return s; };
 	auto expected = [&](std::size_t i, std::size_t j) -> double {
 		std::size_t p = perm[i], q = perm[j];
@@ -74,7 +107,26 @@ int run(){
 		if(wty == "block") return K(p < n ? p : p-n, q < n ? q : q-n);
 		if(wty == "diff") return K(opairs[p].second,opairs[q].second) - K(opairs[p].second,opairs[q].first)
 			- K(opairs[p].first,opairs[q].second) + K(opairs[p].first,opairs[q].first);
+		if(wty == "exmod") return K(p,q) * oscale[p] * oscale[q];
+		if(wty == "gauss") return sqdist(p,q);       // compared with the DECODED value
 		return K(p,q);
+	};
+	// value as compared with `expected`
+	auto val = [&](T v) -> double {
+		if(wty != "gauss") return double(v);
+		typename std::map<std::uint64_t, long>::const_iterator it = gdecode.find(bits(v));
+		return it == gdecode.end() ? -1.0 : double(it->second);
+	};
+	auto showVals = [&](T const* p, std::size_t len){ std::string s = "["; for(std::size_t c = 0; c != len; ++c){ if(c) s += ","; s += obs(p[c]); } return s + "]"; };
+	auto showCache = [&]() -> std::string {
+		LRUCache<T>& c = cm->cache(); std::size_t sz = w->size();
+		std::ostringstream os;
+		os << "size=" << c.size() << " cached=" << c.cachedLines() << " lru=[";
+		for(std::size_t p = 0; p != c.cachedLines(); ++p){ if(p) os << ", "; os << c.listIndex(p); }
+		os << "]";
+		for(std::size_t i = 0; i != sz; ++i) os << " " << showVals(c.getLinePointer(i), c.lineLength(i));
+		os << ids.show(c, sz);
+		return os.str();
 	};
 	std::string line; std::vector<std::size_t> a;
 	while(std::getline(std::cin, line)){
@@ -93,9 +145,10 @@ int run(){
 			}
 			data = createDataFromRange(pts, bs);
 			ldata = createLabeledDataFromRange(pts, labels, bs);
-			w.reset(); keepBase.reset();
+			cm.reset(); dyn.reset(); w.reset(); keepBase.reset();
 			std::cout << "ok\n"; continue;
 		}
+		if(op == "wflags"){ std::cout << "ok\n"; continue; }   // source flags: for the model only
 		if(op == "wgauss"){
 			// wgauss g k  i1 j1 i2 j2 ... : GaussianKernelMatrix(gamma = g/2^k) against direct kernel evaluation
 			// (not modelled in Lean: transcendental; oracle only, relative tolerance), after the given flips
@@ -119,7 +172,7 @@ int run(){
 		if(op == "wmk"){
 			if(t.size() < 2 || !vh::allNat(t, 2, a)){ std::cout << "bad-op\n"; continue; }
 			std::string const& ty = t[1];
-			w.reset(); keepBase.reset();
+			cm.reset(); dyn.reset(); w.reset(); keepBase.reset();
 			if(ty == "kernel") w.reset(new Wrap<T,KM>(new KM(kernel, data), n));
 			else if(ty == "reg") w.reset(new Wrap<T,RegularizedKernelMatrix<RealVector,T> >(new RegularizedKernelMatrix<RealVector,T>(kernel, data, diag), n));
 			else if(ty == "mod" && a.size() == 2) w.reset(new Wrap<T,ModifiedKernelMatrix<RealVector,T> >(new ModifiedKernelMatrix<RealVector,T>(kernel, ldata, T(a[0]), T(a[1])), n));
@@ -138,6 +191,24 @@ int run(){
 			}else if(ty == "partly" && a.size() == 1){
 				keepBase.reset(new KM(kernel, data));
 				w.reset(new WrapPartly<T,PartlyPrecomputedMatrix<KM> >(new PartlyPrecomputedMatrix<KM>(keepBase.get(), a[0]), n));
+			}else if(ty == "gauss" && a.size() == 2){
+				// GaussianKernelMatrix(gamma = g/2^k); values are observed through the squared distance they encode
+				double gamma = std::ldexp(double(a[0]), -int(a[1]));
+				w.reset(new Wrap<T,GaussianKernelMatrix<RealVector,T> >(new GaussianKernelMatrix<RealVector,T>(gamma, data), n));
+				gdecode.clear();
+				for(long d = 0; d <= 4096; ++d) gdecode[bits(T(std::exp(-gamma * double(d))))] = d;
+			}else if(ty == "exmod" && a.size() == n){
+				// scaling coefficients s_i = 2^-a_i (so 1/s_i is a small integer)
+				typedef ExampleModifiedKernelMatrix<RealVector,T> EM;
+				EM* em = new EM(kernel, data);
+				RealVector sc(n); oscale.assign(n, 1.0);
+				for(std::size_t i = 0; i != n; ++i){ sc(i) = std::ldexp(1.0, -int(a[i])); oscale[i] = std::ldexp(1.0, int(a[i])); }
+				em->setScalingCoefficients(sc);
+#ifdef C09_EXMOD_MATRIX
+				w.reset(new Wrap<T,EM>(em, n));
+#else
+				w.reset(new Wrap<T,EM,false>(em, n));        // matrix() cannot be instantiated (finding F-C09-2)
+#endif
 			}else{ std::cout << "bad-op\n"; continue; }
 			wty = ty; perm.resize(w->size()); for(std::size_t i = 0; i != perm.size(); ++i) perm[i] = i;
 			if(ty == "mod"){ modE = double(a[0]); modN = double(a[1]); }
@@ -149,14 +220,14 @@ int run(){
 		if(op == "wflip" && a.size() == 2){ w->flip(a[0], a[1]); if(wty != "partly") std::swap(perm[a[0]], perm[a[1]]); std::cout << "ok\n"; }
 		else if(op == "wentry" && a.size() == 2){
 			T v = w->entry(a[0], a[1]);
-			std::cout << "R=" << vh::intval(v) << (double(v) != expected(a[0], a[1]) ? " !oracle wrong-entry" : "") << "\n"; }
+			std::cout << "R=" << obs(v) << (val(v) != expected(a[0], a[1]) ? " !oracle wrong-entry" : "") << "\n"; }
 		else if(op == "wrow" && a.size() == 3){
 			std::size_t len = a[2] - a[1];
 			T* st = new T[len];
 			w->row(a[0], a[1], a[2], st);
 			std::string s = "R=[";
 			bool bad = false;
-			for(std::size_t c = 0; c != len; ++c){ if(c) s += ","; s += vh::intval(st[c]); if(st[c] != w->entry(a[0], a[1]+c) || double(st[c]) != expected(a[0], a[1]+c)) bad = true; }
+			for(std::size_t c = 0; c != len; ++c){ if(c) s += ","; s += obs(st[c]); if(st[c] != w->entry(a[0], a[1]+c) || val(st[c]) != expected(a[0], a[1]+c)) bad = true; }
 			delete[] st;
 			std::cout << s << "]" << (bad ? " !oracle wrong-row" : "") << "\n";
 		}else if(op == "wmatrix" && a.empty()){
@@ -165,8 +236,46 @@ int run(){
 			std::string s = "R=[";
 			bool bad = false;
 			for(std::size_t i = 0; i != m.size1(); ++i) for(std::size_t j = 0; j != m.size2(); ++j){
-				if(i || j) s += ","; s += vh::intval(m(i,j)); if(m(i,j) != w->entry(i,j)) bad = true; }
+				if(i || j) s += ","; s += obs(m(i,j)); if(m(i,j) != w->entry(i,j) || val(m(i,j)) != expected(i,j)) bad = true; }
 			std::cout << s << "]" << (bad ? " !oracle matrix-differs-from-entry" : "") << "\n";
+		}else if(op == "wcache" && a.size() == 1){
+			// CachedMatrix on top of the wrapper: the combination the solvers use
+			cm.reset(); dyn.reset(new Dyn<T>(w.get())); cm.reset(new ProbeW<T>(dyn.get(), a[0])); ids.reset(); rr.forget();
+			std::cout << showCache() << "\n";
+		}else if(cm && op.size() > 1 && op[0] == 'c'){
+			std::string cop = op.substr(1), r; bool ok = true;
+			if(cop == "row" && a.size() == 2){
+				rr.before(cm->cache(), a[0], a[1]);
+				T* p = cm->row(a[0], 0, a[1]);
+				r = "R=" + showVals(p, cm->cache().lineLength(a[0])) + " " + rr.after(cm->cache(), a[0]);
+				for(std::size_t c = 0; c < a[1]; ++c) if(val(p[c]) != expected(a[0], c)){ r += "!oracle returned-row-wrong "; break; }
+			}else if(cop == "rows" && a.size() == 3){
+				std::size_t len = a[2] - a[1];
+				T* st = new T[len];               // exactly the documented size: ASan sees any overrun
+				cm->row(a[0], a[1], a[2], st);
+				r = "R=" + showVals(st, len) + " ";
+				for(std::size_t c = 0; c < len; ++c) if(val(st[c]) != expected(a[0], a[1]+c)){ r += "!oracle storage-row-wrong "; break; }
+				delete[] st;
+			}else if(cop == "entry" && a.size() == 2){
+				T v = cm->entry(a[0], a[1]);
+				r = "R=" + obs(v) + " " + (val(v) != expected(a[0], a[1]) ? "!oracle wrong-entry " : "");
+			}else if(cop == "flip" && a.size() == 2){
+				cm->flipColumnsAndRows(a[0], a[1]); std::swap(perm[a[0]], perm[a[1]]); rr.forget();
+			}else if(cop == "maxidx" && a.size() == 1){ cm->setMaxCachedIndex(a[0]); rr.forget(); }
+			else if(cop == "clear" && a.empty()){ cm->clear(); rr.forget(); }
+			else ok = false;
+			if(!ok){ std::cout << "bad-op\n"; continue; }
+			// every value the cache holds is the direct formula under the current order
+			std::string orc;
+			for(std::size_t i = 0; i != w->size(); ++i){
+				T const* p = cm->cache().getLinePointer(i);
+				for(std::size_t c = 0; c < cm->cache().lineLength(i); ++c)
+					if(c >= w->size() || val(p[c]) != expected(i,c)){ orc += " !oracle wrong-cached-entry row=" + std::to_string(i); break; }
+			}
+			orc += c09::accounting(cm->cache(), w->size());
+			std::size_t q = r.find("!oracle");
+			if(q != std::string::npos){ orc = " " + r.substr(q) + orc; r = r.substr(0, q); }
+			std::cout << r << showCache() << orc << "\n";
 		}else std::cout << "bad-op\n";
 	}
 	return 0;
